@@ -21,7 +21,7 @@ from ..core import Run
 from . import c05
 
 ENC_CFG = "SPECIFICATION ESpec\nCONSTANTS MaxFaults = {mf}\nWitnessed = {w}\nINVARIANT HonestAccepted\nINVARIANT Canonical\nINVARIANT Emit\nCHECK_DEADLOCK FALSE\n"
-BUDGET_S = 2.0
+BUDGET_S = 6.0   # seconds of processor time per call (the longest call on the unchanged tree, a 284 KB descriptor text, takes 1.5)
 
 
 class Timeout(Exception):
@@ -36,8 +36,12 @@ def classify(fn: Callable[[], Any]) -> tuple[str, Any]:
     """('returned', value) | ('refused', None) | ('leaked:<class>', message) | ('timeout', None)."""
     from btclib.exceptions import BTClibException
 
+    # the budget is processor time of this process (ITIMER_PROF), so that a loaded machine does not turn a slow call into a "hang";
+    # wall time is only a distant backstop (a call that blocks without computing)
+    signal.signal(signal.SIGPROF, _alarm)
     signal.signal(signal.SIGALRM, _alarm)
-    signal.setitimer(signal.ITIMER_REAL, BUDGET_S)
+    signal.setitimer(signal.ITIMER_PROF, BUDGET_S)
+    signal.setitimer(signal.ITIMER_REAL, 40 * BUDGET_S)
     try:
         v = fn()
         return "returned", v
@@ -50,6 +54,7 @@ def classify(fn: Callable[[], Any]) -> tuple[str, Any]:
     except Exception as e:  # noqa: BLE001
         return f"leaked:{type(e).__name__}@{_site(e)}", str(e)[:120]
     finally:
+        signal.setitimer(signal.ITIMER_PROF, 0)
         signal.setitimer(signal.ITIMER_REAL, 0)
 
 
@@ -917,7 +922,7 @@ def check(run: Run) -> None:
     run.rule = ("entry points = every class parse (by introspection, check_validity on/off) + function parsers + text decoders + from_dict "
                 "constructors + verify-style predicates; inputs = the fault-injecting encoder's corpus (all single faults, pairs in the thorough tier), "
                 "structure-aware mutations of a valid encoding of each class, type-confused JSON, hostile and mutated text, boundary integers; "
-                "every transaction a parser accepted is handed to 9 consumers; each call under a 2 s budget. Non-trivial = a call whose input is "
+                "every transaction a parser accepted is handed to 9 consumers; each call under a budget of 6 s of processor time. Non-trivial = a call whose input is "
                 "neither the seed itself nor refused at its first byte (counted: distinct (entry point, input) pairs)")
     run.assumptions = ["a library exception (BTClibValueError / TypeError / RuntimeError families) is a refusal; anything else is a leak",
                        "predicates bound: dsa/ssa/bms verification; check_output_pubkey and musig2 partial verification refuse by documented design and are not in the predicate set"]
